@@ -10,7 +10,7 @@ NoFault == [at |-> 0, kind |-> "none"]
 Inst(en, ty, sch, flt, w, r, v) == [enabled |-> en, type |-> ty, scheme |-> sch, filter |-> flt, width |-> w, res |-> r, value |-> v]
 Dev(sh, st, insts) == [short |-> sh, status |-> st, inst |-> insts]
 Bus(devs, d, f) == [dev |-> devs, dtr0 |-> d, dtr1 |-> d, dtr2 |-> d, quiescent |-> FALSE, latch |-> <<>>, fault |-> f, nans |-> 0]
-Faults(n) == {NoFault} \cup {[at |-> a, kind |-> fk] : a \in 1..n, fk \in {"silent", "err"}}
+Faults(n) == {NoFault} \cup {[at |-> a, kind |-> fk] : a \in 1..n, fk \in {"silent", "err", "errsame"}}
 Base(op) == [op |-> op, bus |-> Bus(<<>>, 0, NoFault), target |-> <<1, 0>>, req |-> <<0, 0, 0>>, fwidth |-> 8,
              resolution |-> -1, addresses |-> <<>>]
 
